@@ -3,7 +3,7 @@
     own-pointer fix-up, upper-level link, re-check) / softDelete / NewLevel / the iterator, replayed
     step by step against the real code. *)
 From Coq Require Import List Arith ZArith Lia Bool Sorting.Sorted.
-From NV Require Import Base.Sched Skip.Model Skip.Stmts Skip.Proofs.
+From NV Require Import Base.Sched Skip.Model Skip.Stmts Skip.Proofs Skip.IterStmts Skip.LinStmts Skip.LinProofs.
 Import ListNotations.
 Open Scope Z_scope.
 
@@ -55,3 +55,39 @@ Example C13_nonvacuous :
   quiescentS y = true /\ abs_keys (sh y) = [20] /\
   map (fun t => done t) (ths y) = [[RBool true; RBool true; RBool false]; [RBool true; RBool true; RBool true; RBool true]].
 Proof. vm_compute. repeat split. Qed.
+
+(** LINEARIZABILITY with explicit linearization points.  Abstract state: membership in [abs_keys] (the
+    unmarked nodes of the level-0 chain).  For all programs and all schedules:
+    (1) the abstract set changes only at linearization points — a step that changes any membership
+        changes exactly one key's, and the acting goroutine is at the level-0 publish CAS of an Insert of
+        that key (absent -> present) or at the level-0 mark CAS of a Delete of that key (present ->
+        absent); *)
+Theorem C13_lin_points : stmt_lin_points.
+Proof. exact lin_points. Qed.
+Print Assumptions C13_lin_points.
+
+(** (2) every Insert that returns true contains exactly one step of its own that changes the membership
+        of its key, from absent to present; every Delete / DeleteNode that returns true exactly one, from
+        present to absent (a node is deleted successfully by exactly one caller); *)
+Theorem C13_lin_insert_true : stmt_lin_insert_true.
+Proof. exact lin_insert_true. Qed.
+Print Assumptions C13_lin_insert_true.
+Theorem C13_lin_delete_true : stmt_lin_delete_true.
+Proof. exact lin_delete_true. Qed.
+Print Assumptions C13_lin_delete_true.
+
+(** (3) operations that leave the set unchanged make no change of their own and observed the set at a
+        moment of their own interval: a failed Insert saw its key present, a failed Delete saw it absent,
+        a Lookup's answer was true at some moment between its call and its return. *)
+Theorem C13_lin_insert_false : stmt_lin_insert_false.
+Proof. exact lin_insert_false. Qed.
+Print Assumptions C13_lin_insert_false.
+Theorem C13_lin_delete_false : stmt_lin_delete_false.
+Proof. exact lin_delete_false. Qed.
+Print Assumptions C13_lin_delete_false.
+Theorem C13_lin_lookup : stmt_lin_lookup.
+Proof. exact lin_lookup. Qed.
+Print Assumptions C13_lin_lookup.
+
+(** non-vacuity: a failed Insert, a successful Delete and a Lookup returning true overlapping on one key *)
+Example C13_lin_nonvacuous := lin_nonvacuous.
